@@ -410,164 +410,206 @@ func evalActionCond(info *types.Info, e ast.Expr, actionObj types.Object, val st
 	return false, false
 }
 
-func c14Wrap(c *core.Ctx, r *core.Reporter) {
-	p, fd := c.FindDecl("language/visitor", "VisitWithTypeInfo")
-	if fd == nil {
-		r.Unknown("VisitWithTypeInfo", token.NoPos, "not found")
-		return
-	}
-	info := p.TypesInfo
-	// the Enter literal
-	var enterLit *ast.FuncLit
-	ast.Inspect(fd.Body, func(n ast.Node) bool {
-		kv, ok := n.(*ast.KeyValueExpr)
-		if !ok {
-			return true
-		}
-		if id, ok := kv.Key.(*ast.Ident); ok && id.Name == "Enter" {
-			enterLit, _ = kv.Value.(*ast.FuncLit)
-		}
-		return true
-	})
-	if enterLit == nil {
-		r.Unknown("VisitWithTypeInfo.Enter", fd.Pos(), "Enter literal not found")
-		return
-	}
-	// action variable: first result of the dynamic call fn(p)
-	var actionObj types.Object
-	ast.Inspect(enterLit.Body, func(n ast.Node) bool {
-		as, ok := n.(*ast.AssignStmt)
-		if ok && len(as.Lhs) == 2 && len(as.Rhs) == 1 {
-			if call, ok := as.Rhs[0].(*ast.CallExpr); ok && core.CalleeObj(info, call) == nil && len(call.Args) == 1 {
-				actionObj = core.ObjOf(info, as.Lhs[0])
-			}
-		}
-		return true
-	})
-	if actionObj == nil {
-		r.Unknown("VisitWithTypeInfo.Enter", enterLit.Pos(), "action variable not found")
-		return
-	}
-	// conditions guarding a Leave call
-	leavesFor := func(val string) bool {
-		res := false
-		core.WalkStack(enterLit.Body, func(n ast.Node, stack []ast.Node) bool {
-			call, ok := n.(*ast.CallExpr)
-			if !ok {
-				return true
-			}
-			se, ok := call.Fun.(*ast.SelectorExpr)
-			if !ok || se.Sel.Name != "Leave" {
-				return true
-			}
-			// all enclosing IfStmts that mention action must evaluate true
-			holds := true
-			mentions := false
-			for i := len(stack) - 1; i >= 0; i-- {
-				iff, ok := stack[i].(*ast.IfStmt)
-				if !ok {
+// visitorArms returns the functions stored in the Enter / Leave fields of the VisitorOptions built by fn (function
+// literals, or methods used as method values).
+func visitorArms(c *core.Ctx, fn *ssa.Function) map[string]*ssa.Function {
+	arms := map[string]*ssa.Function{}
+	for _, g := range core.WithAnon(fn) {
+		for _, fields := range core.LiteralStores(g, "VisitorOptions") {
+			for name, vals := range fields {
+				if name != "Enter" && name != "Leave" {
 					continue
 				}
-				// is the call within the body (not else)?
-				inBody := iff.Body.Pos() <= call.Pos() && call.End() <= iff.Body.End()
-				v, known := evalActionCond(info, iff.Cond, actionObj, val)
-				if known {
-					mentions = true
-					if v != inBody {
-						holds = false
+				for _, v := range vals {
+					for {
+						ct, ok := v.(*ssa.ChangeType) // func literal converted to the named VisitFunc type
+						if !ok {
+							break
+						}
+						v = ct.X
+					}
+					t := core.ClosureFn(v)
+					if t == nil {
+						if f, ok := v.(*ssa.Function); ok {
+							t = f
+						}
+					}
+					if t != nil && t.Synthetic != "" && t.Object() != nil { // bound method value
+						if m := c.Prog.FuncValue(t.Object().(*types.Func)); m != nil {
+							t = m
+						}
+					}
+					if t != nil {
+						arms[name] = t
 					}
 				}
 			}
-			if holds && mentions {
-				res = true
+		}
+	}
+	return arms
+}
+
+// reachWithAction: the blocks of fn reachable from `from` when the action value `action` is the string val: branches on
+// `action == K` / `action != K` (K constant) are decided, every other branch is followed both ways.
+func reachWithAction(from *ssa.BasicBlock, action ssa.Value, val string) map[*ssa.BasicBlock]bool {
+	seen := map[*ssa.BasicBlock]bool{}
+	var walk func(b *ssa.BasicBlock)
+	walk = func(b *ssa.BasicBlock) {
+		if seen[b] {
+			return
+		}
+		seen[b] = true
+		if len(b.Instrs) == 0 {
+			return
+		}
+		if iff, ok := b.Instrs[len(b.Instrs)-1].(*ssa.If); ok {
+			if bo, ok := iff.Cond.(*ssa.BinOp); ok && (bo.Op == token.EQL || bo.Op == token.NEQ) {
+				var k string
+				known := false
+				if bo.X == action {
+					k, known = core.ConstString(bo.Y)
+				} else if bo.Y == action {
+					k, known = core.ConstString(bo.X)
+				}
+				if known {
+					truth := (k == val) == (bo.Op == token.EQL)
+					if truth {
+						walk(b.Succs[0])
+					} else {
+						walk(b.Succs[1])
+					}
+					return
+				}
 			}
-			return true
-		})
-		return res
+		}
+		for _, s := range b.Succs {
+			walk(s)
+		}
+	}
+	walk(from)
+	return seen
+}
+
+func c14Wrap(c *core.Ctx, r *core.Reporter) {
+	wti := c.Func("language/visitor", "VisitWithTypeInfo")
+	if wti == nil {
+		r.Unknown("VisitWithTypeInfo", token.NoPos, "not found")
+		return
+	}
+	enter := visitorArms(c, wti)["Enter"]
+	if enter == nil {
+		r.Unknown("VisitWithTypeInfo.Enter", wti.Pos(), "Enter function not found")
+		return
+	}
+	// the wrapped visitor's verdict: first result of the dynamic call of a VisitFunc
+	var action ssa.Value
+	var dyn *ssa.Call
+	core.Instrs(enter, func(in ssa.Instruction) {
+		call, ok := in.(*ssa.Call)
+		if !ok || call.Call.IsInvoke() || call.Call.StaticCallee() != nil {
+			return
+		}
+		if _, isB := call.Call.Value.(*ssa.Builtin); isB {
+			return
+		}
+		for _, ref := range *call.Referrers() {
+			if ex, ok := ref.(*ssa.Extract); ok && ex.Index == 0 {
+				action, dyn = ex, call
+			}
+		}
+	})
+	if action == nil {
+		r.Unknown("VisitWithTypeInfo.Enter", enter.Pos(), "call of the wrapped visit function not found")
+		return
+	}
+	// TypeInfo.Leave calls after that call
+	var leaves []ssa.Instruction
+	core.Instrs(enter, func(in ssa.Instruction) {
+		if ci, ok := in.(ssa.CallInstruction); ok && ci.Common().IsInvoke() && ci.Common().Method.Name() == "Leave" {
+			leaves = append(leaves, in)
+		}
+	})
+	leavesFor := func(val string) bool {
+		reach := reachWithAction(dyn.Block(), action, val)
+		for _, l := range leaves {
+			if l.Block() == dyn.Block() && core.InstrIndex(l) < core.InstrIndex(dyn) {
+				continue
+			}
+			if reach[l.Block()] {
+				return true
+			}
+		}
+		return false
 	}
 	for _, a := range []struct{ name, val string }{{"skip", "SKIP"}, {"update", "UPDATE"}, {"break", "BREAK"}} {
-		r.Check(leavesFor(a.val), "VisitWithTypeInfo.Enter/leave-on-"+a.name, enterLit.Pos(),
+		r.Check(leavesFor(a.val), "VisitWithTypeInfo.Enter/leave-on-"+a.name, enter.Pos(),
 			"TypeInfo.Leave is called when the wrapped visitor returns "+a.name+" on enter",
 			"when the wrapped visitor returns "+a.name+" on enter the main loop never calls leave for that node, and VisitWithTypeInfo does not call TypeInfo.Leave either: the entries pushed by Enter stay on the type stacks")
 	}
-	r.Check(!leavesFor(""), "VisitWithTypeInfo.Enter/no-leave-on-continue", enterLit.Pos(),
+	r.Check(!leavesFor(""), "VisitWithTypeInfo.Enter/no-leave-on-continue", enter.Pos(),
 		"no premature Leave when the traversal continues into the node",
 		"TypeInfo.Leave is called on enter even when the traversal continues: the node's children see the parent's types")
 
 	// VisitInParallel: which action constants each arm compares against
-	p2, fd2 := c.FindDecl("language/visitor", "VisitInParallel")
-	if fd2 == nil {
+	vip := c.Func("language/visitor", "VisitInParallel")
+	if vip == nil {
 		r.Unknown("VisitInParallel", token.NoPos, "not found")
 		return
 	}
-	info2 := p2.TypesInfo
-	arms := map[string]*ast.FuncLit{}
-	ast.Inspect(fd2.Body, func(n ast.Node) bool {
-		kv, ok := n.(*ast.KeyValueExpr)
-		if !ok {
-			return true
-		}
-		if id, ok := kv.Key.(*ast.Ident); ok && (id.Name == "Enter" || id.Name == "Leave") {
-			if fl, ok := kv.Value.(*ast.FuncLit); ok {
-				arms[id.Name] = fl
-			}
-		}
-		return true
-	})
-	compared := func(fl *ast.FuncLit) map[string]bool {
+	arms := visitorArms(c, vip)
+	if arms["Enter"] == nil || arms["Leave"] == nil {
+		r.Unknown("VisitInParallel", vip.Pos(), "Enter/Leave functions not found")
+		return
+	}
+	compared := func(fn *ssa.Function) map[string]bool {
 		out := map[string]bool{}
-		ast.Inspect(fl, func(n ast.Node) bool {
-			be, ok := n.(*ast.BinaryExpr)
-			if !ok || be.Op != token.EQL {
-				return true
+		c.RegionInstrs(fn, func(in ssa.Instruction) {
+			bo, ok := in.(*ssa.BinOp)
+			if !ok || (bo.Op != token.EQL && bo.Op != token.NEQ) {
+				return
 			}
-			for _, e := range []ast.Expr{be.X, be.Y} {
-				if tv, ok := info2.Types[e]; ok && tv.Value != nil && tv.Value.Kind() == constant.String {
-					if cobj, ok := core.ObjOf(info2, e).(*types.Const); ok && strings.HasPrefix(core.N(cobj), "Action") {
-						out[constant.StringVal(tv.Value)] = true
-					}
+			for _, e := range []ssa.Value{bo.X, bo.Y} {
+				if k, ok := core.ConstString(e); ok && (k == "SKIP" || k == "BREAK" || k == "UPDATE") {
+					out[k] = true
 				}
 			}
-			return true
 		})
 		return out
-	}
-	if arms["Enter"] == nil || arms["Leave"] == nil {
-		r.Unknown("VisitInParallel", fd2.Pos(), "Enter/Leave literals not found")
-		return
 	}
 	ce, cl := compared(arms["Enter"]), compared(arms["Leave"])
 	r.Check(ce["SKIP"] && ce["BREAK"] && ce["UPDATE"], "VisitInParallel.Enter/actions", arms["Enter"].Pos(),
 		"enter arm handles skip, break and update", fmt.Sprintf("VisitInParallel's enter arm handles only %v of {SKIP, BREAK, UPDATE}: a sub-visitor's skip/break is ignored, so it observes events it would not observe alone", core.SortedKeys(ce)))
 	r.Check(cl["BREAK"] && cl["UPDATE"], "VisitInParallel.Leave/actions", arms["Leave"].Pos(),
 		"leave arm handles break and update", fmt.Sprintf("VisitInParallel's leave arm handles only %v of {BREAK, UPDATE}", core.SortedKeys(cl)))
-	// skip released only on identity with the skipped node
-	released := false
-	ast.Inspect(arms["Leave"], func(n ast.Node) bool {
-		iff, ok := n.(*ast.IfStmt)
-		if !ok {
-			return true
-		}
-		be, ok := iff.Cond.(*ast.BinaryExpr)
-		if !ok || be.Op != token.EQL {
-			return true
-		}
-		isNode := func(e ast.Expr) bool {
-			se, ok := e.(*ast.SelectorExpr)
-			return ok && se.Sel.Name == "Node"
-		}
-		if (isNode(be.X) || isNode(be.Y)) && containsBuiltin(info2, iff.Body, "delete") {
-			released = true
-		}
-		return true
-	})
-	ndel := 0
-	ast.Inspect(fd2.Body, func(n ast.Node) bool {
-		if call, ok := n.(*ast.CallExpr); ok && core.IsBuiltinCall(info2, call, "delete") {
+	// skip released only on identity with the skipped node: the single delete of the skip table is dominated by the true
+	// branch of a comparison with the node being left (a load of VisitFuncParams.Node)
+	released, ndel := false, 0
+	for _, g := range c.Region(vip) {
+		core.Instrs(g, func(in ssa.Instruction) {
+			call, ok := in.(*ssa.Call)
+			if !ok {
+				return
+			}
+			if b, ok := call.Call.Value.(*ssa.Builtin); !ok || b.Name() != "delete" {
+				return
+			}
 			ndel++
-		}
-		return true
-	})
+			core.Instrs(g, func(x ssa.Instruction) {
+				iff, ok := x.(*ssa.If)
+				if !ok {
+					return
+				}
+				bo, ok := iff.Cond.(*ssa.BinOp)
+				if !ok || bo.Op != token.EQL {
+					return
+				}
+				isNode := core.HasClass(bo.X, "field:VisitFuncParams.Node") || core.HasClass(bo.Y, "field:VisitFuncParams.Node")
+				if isNode && iff.Block().Succs[0].Dominates(call.Block()) {
+					released = true
+				}
+			})
+		})
+	}
 	r.Check(released && ndel == 1, "VisitInParallel.Leave/skip-release", arms["Leave"].Pos(),
 		"a skipping sub-visitor resumes exactly when the skipped node itself is left",
 		"the skip mark of a sub-visitor is not released (only) on identity with the skipped node: it resumes too early, too late or never")
